@@ -27,6 +27,8 @@ import re
 from rsrc import LostAnchor, Source, line_of, mask, match_brace, tokens
 
 VERIF = os.path.dirname(os.path.dirname(os.path.abspath(__file__)))
+BUILD = os.environ.get('VERIF_BUILD', os.path.join(VERIF, 'build'))
+EVIDENCE = os.environ.get('VERIF_EVIDENCE_DIR', os.path.join(VERIF, 'evidence'))
 REPO = os.environ.get('VERIF_REPO', '/repo')
 
 CLAUSE_KW = ('requires', 'ensures', 'recommends', 'decreases', 'no_unwind', 'opens_invariants', 'returns',
@@ -117,7 +119,80 @@ def strip_macro_messages(body, log, where):
     return out
 
 
+
+def generic_rules(body):
+    """R1-R7 of DESIGN 2.1 as pattern rules over a function body.  returns edits (a, b, new, rule)."""
+    m = mask(body)
+    edits = []
+    # R1  for x in E.iter().cloned() {   =>   for x in E.iter() { let x = *x;
+    for h in re.finditer(r'\bfor\s+(\w+)\s+in\s+([^{;]*?)\s*\.\s*iter\(\)\s*\.\s*cloned\(\)\s*\{', m):
+        e = body[h.start(2):h.end(2)]
+        edits.append((h.start(), h.end(), 'for %s in %s.iter() { let %s = *%s;' % (h.group(1), e, h.group(1), h.group(1)), 'R1'))
+    # R2  E.for_each(|v| { B });   =>   for v in E { B }      (statement level only)
+    for h in re.finditer(r'\.\s*for_each\s*\(', m):
+        op = h.end() - 1
+        cl = match_brace(m, op)
+        inner = body[op + 1:cl]
+        cm = re.match(r'^\s*\|\s*(\w+)\s*\|\s*\{(.*)\}\s*$', inner, re.S)
+        tail = re.match(r'\s*;', m[cl + 1:])
+        if not cm or not tail:
+            raise LostAnchor('rule R2: for_each without a `|v| { .. }` closure statement')
+        if re.search(r'\b(return|break|continue)\b|\?', mask(cm.group(2))):
+            raise LostAnchor('rule R2 refuses a closure body with return/break/continue/?')
+        st = max(m.rfind(';', 0, h.start()), m.rfind('{', 0, h.start()), m.rfind('}', 0, h.start())) + 1
+        recv = body[st:h.start()]
+        lead = recv[:len(recv) - len(recv.lstrip())]
+        r = recv.strip()
+        r = re.sub(r'\s*\.\s*into_iter\(\)$', '', r)
+        edits.append((st, cl + 1 + tail.end(), '%sfor %s in %s {%s}' % (lead, cm.group(1), r, cm.group(2)), 'R2'))
+    # R3  E.keys().cloned().collect() => keys_vec(&E);  E.iter().cloned().collect() => set_vec(&E)
+    for h in re.finditer(r'([A-Za-z_]\w*(?:\s*\.\s*\w+)*?)\s*\.\s*keys\(\)\s*\.\s*cloned\(\)\s*\.\s*collect\(\)', m):
+        edits.append((h.start(), h.end(), 'keys_vec(&%s)' % re.sub(r'\s+', '', h.group(1)), 'R3'))
+    for h in re.finditer(r'([A-Za-z_]\w*(?:\s*\.\s*\w+)*?)\s*\.\s*iter\(\)\s*\.\s*cloned\(\)\s*\.\s*collect\(\)', m):
+        edits.append((h.start(), h.end(), 'set_vec(&%s)' % re.sub(r'\s+', '', h.group(1)), 'R3'))
+    # R4  M.entry(k).or_insert_with(Vec::new) => entry_or_new(&mut M, k)
+    for h in re.finditer(r'([A-Za-z_]\w*(?:\s*\.\s*\w+)*?)\s*\.\s*entry\s*\(', m):
+        op = h.end() - 1
+        cl = match_brace(m, op)
+        t = re.match(r'\s*\.\s*or_insert_with\s*\(\s*Vec::new\s*\)', m[cl + 1:])
+        if t:
+            edits.append((h.start(), cl + 1 + t.end(), 'entry_or_new(&mut %s, %s)' % (re.sub(r'\s+', '', h.group(1)), body[op + 1:cl].strip()), 'R4'))
+    # R5  X.to_be_bytes() => X.to_be_bytes_v()
+    for h in re.finditer(r'\.\s*to_be_bytes\(\)', m):
+        edits.append((h.start(), h.end(), '.to_be_bytes_v()', 'R5'))
+    # R8  E.alloc_layout(L) => bump_alloc_layout(&E, L)      (bumpalo stand-in, prelude/arena.rs)
+    for h in re.finditer(r'([A-Za-z_]\w*(?:\s*\.\s*\w+)*?)\s*\.\s*alloc_layout\s*\(', m):
+        op = h.end() - 1
+        cl = match_brace(m, op)
+        edits.append((h.start(), cl + 1, 'bump_alloc_layout(&%s, %s)' % (re.sub(r'\s+', '', h.group(1)), body[op + 1:cl].strip()), 'R8'))
+    # R7  V.sort_unstable() => vec_sort_unstable(&mut V)
+    for h in re.finditer(r'\b([A-Za-z_]\w*)\s*\.\s*sort_unstable\(\)', m):
+        edits.append((h.start(), h.end(), 'vec_sort_unstable(&mut %s)' % h.group(1), 'R7'))
+    # overlapping edits (R1 inside R2 etc.) are not expected; keep the outermost
+    edits.sort()
+    out = []
+    for e in edits:
+        if out and e[0] < out[-1][1]:
+            continue
+        out.append(e)
+    return out
+
 # ------------------------------------------------------------------------------------------------
+
+def block_open_after(masked, p):
+    """position of the `{` that opens the block of the loop/if whose keyword ends at p"""
+    depth = 0
+    while p < len(masked):
+        ch = masked[p]
+        if ch in '([':
+            depth += 1
+        elif ch in ')]':
+            depth -= 1
+        elif ch == '{' and depth == 0:
+            return p
+        p += 1
+    raise LostAnchor('block not found')
+
 
 class Contract:
     def __init__(self, key):
@@ -261,6 +336,14 @@ def build_fn(key, mode, log):
         body = body[:a] + text + body[b:]
         orig[a:b] = [tag] * len(text)
 
+    # 0. generic pattern rules R1-R7 (DESIGN 2.1)
+    for a_, b_, new, rule in reversed(generic_rules(body)):
+        src_ln = orig[a_]
+        old = body[a_:b_]
+        pad = '\n' * max(0, old.count('\n') - new.count('\n'))
+        splice(a_, b_, new + pad, src_ln)
+        rw.append(dict(rule=rule, where='%s:%s' % (c.src_file, src_ln), before=re.sub(r'\s+', ' ', old)[:300], after=re.sub(r'\s+', ' ', new)[:300]))
+
     # 1. explicit replaces
     for d in c.directives:
         if d['kind'] != 'replace':
@@ -303,6 +386,102 @@ def build_fn(key, mode, log):
             inserts.append((0, ghost_text(d), tag, d))
         elif k == 'last':
             inserts.append((len(body.rstrip()), ghost_text(d), tag, d))
+        elif k in ('loop-first', 'loop-last'):
+            n = int(d['arg'].split()[0])
+            if n < 1 or n > len(loops):
+                raise LostAnchor('%s:%d: loop %d not found in %s (has %d loops)' % (c.rel, d['lineno'], n, where, len(loops)))
+            ob = block_open_after(masked, loops[n - 1].end())
+            cb = match_brace(masked, ob)
+            if k == 'loop-first':
+                pos = ob + 1
+                sh = re.match(r'\s*let\s+(\w+)\s*=\s*\*\1\s*;', masked[pos:])      # the shadowing `let` of rule R1
+                if sh:
+                    pos += sh.end()
+                inserts.append((pos, ghost_text(d), tag, d))
+            else:
+                inserts.append((cb, ghost_text(d), tag, d))
+        elif k == 'if':
+            parts = d['arg'].split()
+            n, wh = int(parts[0]), parts[1]
+            ifs = list(re.finditer(r'\bif\b', masked))
+            if n < 1 or n > len(ifs):
+                raise LostAnchor('%s:%d: if %d not found in %s (has %d)' % (c.rel, d['lineno'], n, where, len(ifs)))
+            ob = block_open_after(masked, ifs[n - 1].end())
+            cb = match_brace(masked, ob)
+            if wh == 'before':
+                # in front of the whole if statement (the `if` keyword itself; for `else if` this is refused)
+                if re.search(r'\belse\s*$', masked[:ifs[n - 1].start()]):
+                    raise LostAnchor('%s:%d: if %d is an else-if' % (c.rel, d['lineno'], n))
+                inserts.append((ifs[n - 1].start(), ghost_text(d), tag, d))
+            elif wh == 'then-first':
+                inserts.append((ob + 1, ghost_text(d), tag, d))
+            elif wh == 'then-last':
+                inserts.append((cb, ghost_text(d), tag, d))
+            elif wh in ('else-first', 'else-last', 'after'):
+                em = re.match(r'\s*else\s*\{', masked[cb + 1:])
+                if wh == 'after':
+                    end = cb + 1
+                    while True:
+                        e2 = re.match(r'\s*else\s*(if\b[^{]*)?\{', masked[end:])
+                        if not e2:
+                            break
+                        end = match_brace(masked, end + e2.end() - 1) + 1
+                    inserts.append((end, ghost_text(d), tag, d))
+                else:
+                    if not em:
+                        raise LostAnchor('%s:%d: if %d of %s has no plain else block' % (c.rel, d['lineno'], n, where))
+                    eo = cb + 1 + em.end() - 1
+                    ec = match_brace(masked, eo)
+                    inserts.append((eo + 1 if wh == 'else-first' else ec, ghost_text(d), tag, d))
+            else:
+                raise ValueError('%s:%d: bad if position %s' % (c.rel, d['lineno'], wh))
+        elif k in ('after-let', 'before-let'):
+            nm = d['arg'].split()[0]
+            which = int(d['arg'].split()[1][1:]) if len(d['arg'].split()) > 1 else None
+            hits = list(re.finditer(r'\blet\s+(mut\s+)?' + re.escape(nm) + r'\b', masked))
+            if (which is None and len(hits) != 1) or (which is not None and which > len(hits)):
+                raise LostAnchor('%s:%d: `let %s` found %d times in %s' % (c.rel, d['lineno'], nm, len(hits), where))
+            h = hits[(which or 1) - 1]
+            if k == 'before-let':
+                inserts.append((h.start(), ghost_text(d), tag, d))
+            else:
+                p = h.end()
+                depth = 0
+                while True:
+                    ch = masked[p]
+                    if ch in '([{':
+                        depth += 1
+                    elif ch in ')]}':
+                        depth -= 1
+                    elif ch == ';' and depth == 0:
+                        break
+                    p += 1
+                inserts.append((p + 1, ghost_text(d), tag, d))
+        elif k == 'loop-after':
+            n = int(d['arg'].split()[0])
+            if n < 1 or n > len(loops):
+                raise LostAnchor('%s:%d: loop %d not found in %s' % (c.rel, d['lineno'], n, where))
+            cb = match_brace(masked, block_open_after(masked, loops[n - 1].end()))
+            inserts.append((cb + 1, ghost_text(d), tag, d))
+        elif k == 'before-tail':
+            e = len(masked.rstrip())
+            if e == 0 or masked[e - 1] in ';}':
+                inserts.append((e, ghost_text(d), tag, d))
+            else:
+                inserts.append((masked.rfind('\n', 0, e) + 1, ghost_text(d), tag, d))
+        elif k == 'before-break':
+            n = int(d['arg'].split()[0]) if d['arg'].strip() else 1
+            brs = list(re.finditer(r'\bbreak\b', masked))
+            if n > len(brs):
+                raise LostAnchor('%s:%d: break %d not found in %s' % (c.rel, d['lineno'], n, where))
+            inserts.append((brs[n - 1].start(), ghost_text(d), tag, d))
+        elif k == 'before-return':
+            # n-th `return` keyword
+            n = int(d['arg'].split()[0]) if d['arg'].strip() else 1
+            rets = list(re.finditer(r'\breturn\b', masked))
+            if n > len(rets):
+                raise LostAnchor('%s:%d: return %d not found in %s' % (c.rel, d['lineno'], n, where))
+            inserts.append((rets[n - 1].start(), ghost_text(d), tag, d))
         elif k == 'loop':
             parts = d['arg'].split()
             n = int(parts[0])
